@@ -120,3 +120,11 @@ LEVEL_NOTE = ("The theorems are about the ladder and store models; memory safety
               "No allocation-failure defect is open; a new failure class is a VIOLATION (nothing is masked: known_findings.d/C17.json "
               "has no entry).")
 TECHNIQUE = "Lean 4 induction over value shapes and fault positions (clean-up ladder model), Lean 4 proof on a transactional store model with fault steps + exhaustive single-fault injection and fault-injected API histories"
+
+# ---- independent review rA (notes/review/rA-review.md): instances that apply the new ladder theorems to concrete traces ----
+LEAN_MODULES += ["CifModel.Props.ReviewRC17"]
+PARTIAL += [
+    "review rA: the SUCCESS outcomes of the `*_balanced` ladder theorems (a well-formed result tree) are not stated in the form that "
+    "C17_free_any_balanced takes as its hypothesis, so 'create under a fault-free run, then release' is not a chained theorem (the "
+    "heap-level chain of C19_history_heap / C19_history_release covers it without faults)",
+]
